@@ -2,7 +2,7 @@
    against the writer's encoding, and how decode_items behaves under appending
    and splitting of the buffer. *)
 From Coq Require Import ZArith List Bool Lia.
-From Verif Require Import lib.C12_Py lib.C12_ZList gen.Sphere C12.Model.
+From Verif Require Import lib.C12_Py lib.C12_ZList gen.Sphere C12.Model C12.Spec.
 Import ListNotations.
 Open Scope Z_scope.
 
@@ -34,8 +34,6 @@ Proof. destruct be; [now rewrite rev_involutive | reflexivity]. Qed.
 
 (* ---- one item *)
 
-Definition in_range (bits : Z) (signed : bool) (v : Z) : Prop :=
-  if signed then - 2 ^ (bits - 1) <= v < 2 ^ (bits - 1) else 0 <= v < 2 ^ bits.
 
 Lemma encode_item_length size be v : 0 <= size -> len (encode_item size be v) = size.
 Proof.
